@@ -112,6 +112,27 @@ INFO = {
     "C17-m6": ("C17", "initial retransmit counter set before the options run", "MuxerOptTablesRetransmitPeriod >= 42 and a first unit without random-access on the PCR PID: no tables before the first PES"),
     "C19-m5": ("C19", "DemuxerOptPacketSize creates the packet buffer at once, capturing the skipper set so far", "explicit packet size option given before the skipper option"),
     "C19-m6": ("C19", "parseData appends the default PES data to what the parser returned", "a parser returning data with skip=false on a PES unit"),
+    # round 5 (third pair for the ten properties of round 3)
+    "C03-m5": ("C03", "NextData mid-stream guard len(ps) == 0 became ps == nil", "a packet that is both a payload-unit start and a discontinuity (indicator or counter gap on a non-empty queue): empty group reaches parseData → index out of range"),
+    "C03-m6": ("C03", "hasPSISyntaxHeader excludes table id 0x6f while the EIT dispatch still accepts it", "a section with table_id 0x6f on a PSI PID: nil syntax header dereferenced"),
+    "C05-m5": ("C05", "last-esContext cache in WriteData left stale by a failed lookup", "write A, failed write on unknown X, add X, write X: X's packets consume A's counter"),
+    "C05-m6": ("C05", "automatic PID skip loop no longer avoids the PMT PID", "the 3841st automatic assignment of a Muxer's life lands on 0x1000: stream and PMT share a PID"),
+    "C07-m5": ("C07", "one-entry accumulator cache keyed before the TEI / payload-less early returns", "payload packet of X, ignored (TEI or adaptation-only) packet of Y, payload packet of Y: Y's packet lands in X's accumulator"),
+    "C07-m6": ("C19", "packet buffer reuses the struct of a skipped packet without clearing its adaptation field (asked for C07; needs a PacketSkipper, the subject of C19)", "a skipped packet with an adaptation field directly followed by a delivered packet without one"),
+    "C08-m5": ("C08", "bufio branch of peek returns before the EOF normalisation", "bufio.Reader + auto-detection on an input of one packet plus 1..4 bytes, or empty, or after read-to-end + Rewind"),
+    "C08-m6": ("C08", "NextPacket compares the packet-buffer creation error by identity instead of errors.Is", "auto-detection on an input shorter than one packet: a wrapped error instead of ErrNoMorePackets"),
+    "C10-m5": ("C10", "running checksum of writePSISection kept in a pooled hasher that is reset only when the CRC is read", "a section write abandoned part-way (writer error) followed by a good one: wrong CRC"),
+    "C10-m6": ("C10", "updateCRC32 treats a running value of 0 as not started", "a piece boundary exactly where the running CRC is 0"),
+    "C11-m5": ("C11", "calcPacketAdaptationFieldSize trusts the parse-time Length when it is set", "a packet struct whose derived Length is stale (parsed, then edited) handed to WritePacket"),
+    "C11-m6": ("C16", "writePacket pads by appending 0xff to the caller's payload slice (asked for C11: the packet written is right; what breaks is the caller's memory behind a short payload - C16's subject)", "payload shorter than the room, with spare capacity"),
+    "C15-m5": ("C15", "writeDVBTime year term (year-l)*365 + year/4", "January/February of leap years: MJD one day too large"),
+    "C15-m6": ("C15", "parseDVBTime caches the last MJD keyed by a no-copy window on the caller's buffer", "two different dates decoded from the same buffer at the same offset"),
+    "C16-m5": ("C16", "parental rating descriptor items read without copy", "a PMT/EIT with descriptor 0x55 kept while further payloads are assembled"),
+    "C16-m6": ("C16", "zero-length adaptation fields parsed into one shared package-level object", "two packets with a one-byte adaptation field; the field of one handed to a Muxer whose writer fails (StuffingLength left set)"),
+    "C18-m5": ("C18", "writePacketAdaptationFieldExtension returns only the seamless-splice write result", "extension with seamless splice and a writer failing once on one of the extension header bytes"),
+    "C18-m6": ("C18", "bufio Peek error cleared when more than 188 bytes were obtained", "bufio.Reader + auto-detection, underlying reader failing once at offset 189..192"),
+    "C20-m5": ("C20", "packet buffer latches 'truncated' and Rewind keeps the buffer when the size is explicit", "explicit packet size, input ending in the middle of a packet, Rewind after the end was reached"),
+    "C20-m6": ("C20", "PAT programme 0 (network PID) enters the programme map, which Rewind never resets", "PAT with a programme-0 entry naming a PID of its own, a section on that PID before the PAT, Rewind after the PAT was parsed"),
 }
 REVERTS = {
     "R01": "C12", "R02": "C14", "R03": "C14", "R04": "C18", "R05": "C17", "R06": "C04", "R07": "C11", "R08": "C05", "R09": "C06",
